@@ -44,7 +44,7 @@ CHECKS: dict[str, dict] = {
                         "protocol is API misuse and not exercised"],
     },
     "C06": {
-        "specs": [("qos", "match", 5000, 150000)],
+        "specs": [("qos", "match", 10000, 150000)],
         "budget": (100, 1500),
         "rule": "one run = 1-3 awaited requests of a drawn kind/context/gateway id with prompt echo+genuine reply, "
                 "and adversary near-miss packets (differing in exactly one of code/verb/device/context) placed before "
@@ -55,8 +55,8 @@ CHECKS: dict[str, dict] = {
                         "and replies addressed to another requester are documented collisions: counted, not judged"],
     },
     "C01": {
-        "specs": [("rx", "serial", 1200, 40000), ("rx", "file", 800, 30000), ("rx", "dict", 800, 30000),
-                  ("rx", "mqtt", 600, 20000)],
+        "specs": [("rx", "serial", 2400, 40000), ("rx", "file", 1600, 30000), ("rx", "dict", 1600, 30000),
+                  ("rx", "mqtt", 1200, 20000)],
         "budget": (120, 1500),
         "rule": "one run = a stream of 5-150 lines (real corpus lines, payloads sampled from the library's own per-code "
                 "regexes under the three address shapes, and 1-3-edit corruptions of both) offered through one transport: "
@@ -73,7 +73,7 @@ CHECKS: dict[str, dict] = {
                         "MQTT messages are well-formed JSON objects with ts/msg, or truncated JSON"],
     },
     "C05": {
-        "specs": [("rx", "decode", 2500, 80000)],
+        "specs": [("rx", "decode", 5000, 80000)],
         "budget": (120, 1500),
         "rule": "one run = 5-150 decodable lines (corpus + regex-sampled + well-formed arrays of 1-8 elements from the "
                 "proper device kind) decoded (1) in order, (2) permuted with duplicates after a wall-clock jump of 0-400 "
@@ -87,7 +87,7 @@ CHECKS: dict[str, dict] = {
                         "arrays are judged only when sent by the device kind that really sends them (01: / 02: / 23:)"],
     },
     "C02": {
-        "specs": [("rx", "logrt", 1500, 50000), ("rx", "serial", 300, 10000), ("rx", "dict", 300, 10000)],
+        "specs": [("rx", "logrt", 3000, 50000), ("rx", "serial", 300, 10000), ("rx", "dict", 300, 10000)],
         "budget": (120, 1500),
         "rule": "logrt: a live serial session (seeded gaps 0-30 s, some crossing midnight) with packet_log enabled (plain / "
                 "rotate_bytes / rotate at midnight); the written file(s) are replayed through a fresh FileTransport; "
@@ -116,7 +116,7 @@ CHECKS: dict[str, dict] = {
                         "the 'one frame per write already pending' allowance is the bits of the other accepted-but-unwritten frames at the time of a write"],
     },
     "C10": {
-        "specs": [("filt", "main", 1600, 60000)],
+        "specs": [("filt", "main", 3200, 60000)],
         "budget": (120, 1500),
         "rule": "one run = one drawn configuration (block list / known list overlapping or not, enforcement on/off incl. "
                 "enforced-but-empty, active gateway listed / listed with class HGI / unlisted / block-listed) on a real "
@@ -134,7 +134,7 @@ CHECKS: dict[str, dict] = {
                         "library refuses to adopt it)"],
     },
     "C12": {
-        "specs": [("disc", "main", 24, 2400)],
+        "specs": [("disc", "main", 48, 2400)],
         "budget": (240, 3000),
         "rule": "one run = one drawn controller configuration (any subset of zones 00-0B up to max_zones, class radiator/"
                 "zone-valve/electric/mixing/UFH, sensor of every permitted type incl. the controller itself or a TRV that is "
@@ -152,7 +152,7 @@ CHECKS: dict[str, dict] = {
                         "a lost reply is recovered at the next 24 h polling round: that is what 'a later polling round' means here"],
     },
     "C17": {
-        "specs": [("sched", "codec", 1500, 60000)],
+        "specs": [("sched", "codec", 4500, 60000)],
         "budget": (120, 1500),
         "rule": "one run = 1-3 zones (+DHW) with generated weekly schedules (1-6 switchpoints/day on the 5-minute grid, "
                 "setpoints on the 0.01 grid biased to values where x*100 is not exact, DHW on/off); monitored pure clauses: "
@@ -182,7 +182,7 @@ CHECKS: dict[str, dict] = {
                         "a zone without a schedule answers with the documented 7-byte RP|0404; an error is a legitimate ending"],
     },
     "C19": {
-        "specs": [("flog", "main", 2400, 80000)],
+        "specs": [("flog", "main", 4800, 80000)],
         "budget": (120, 1500),
         "rule": "one run = a history of 3-25 steps over a scripted controller log (0-64 entries preloaded): new fault/restore "
                 "(announcement delivered, lost or duplicated), single RP|0418 for an arbitrary position overheard, "
@@ -251,7 +251,7 @@ CHECKS["C15"] = {
 }
 
 CHECKS["C16"] = {
-    "specs": [("state", "restore", 1200, 50000)],
+    "specs": [("state", "restore", 2400, 50000)],
     "budget": (150, 1800),
     "rule": "one run = a live history as in C13 (windows of real logs, spliced/mutated; bursts of several frames in one read; eavesdropping "
             "on in 25 %) with 1-4 crash points at seeded prefixes: S1 = get_state(include_expired on/off) with the loop drained; crash = a "
@@ -270,7 +270,7 @@ CHECKS["C16"] = {
 }
 
 CHECKS["C14"] = {
-    "specs": [("state", "fresh", 2400, 90000)],
+    "specs": [("state", "fresh", 6000, 90000)],
     "budget": (150, 1800),
     "rule": "one run = 20-140 steps against a live gateway with a configured system (2-6 of zones 00-0B, DHW in 60 %): stateful frames "
             "generated by the engine in the shapes seen in the corpus (controller arrays and per-zone replies of 30C9/2309/000A, 2349, "
@@ -289,7 +289,7 @@ CHECKS["C14"] = {
 }
 
 CHECKS["C20"] = {
-    "specs": [("bind", "main", 2000, 80000), ("bind", "scripted", 2000, 80000)],
+    "specs": [("bind", "main", 4000, 80000), ("bind", "scripted", 4000, 80000)],
     "budget": (150, 1800),
     "rule": "one run = one of the five supported pairings (RND->CTL, DHW->CTL, CO2->FAN itho, REM->FAN nuaire, DIS->FAN orcon, with their "
             "code lists, idx and 10E0 addenda) between two real Gateways (faked supplicant / faked respondent) on one virtual loop and one "
